@@ -110,6 +110,7 @@ def _changer_arm(variant):
     return find
 
 
+ROLES["restore::to_conf_change_single"] = lambda cx: _one(_callee_of(cx, cx.prog.one("confchange::restore::restore"), lambda sp, s: sp.startswith("raft::confchange::restore::") and "ConfState" in cx.facts.fns[cx.prog.short[sp][0]].body.local_ty(1))) if cx.prog.one("confchange::restore::restore") else None
 ROLES["Changer::make_voter"] = _changer_arm("AddNode")
 ROLES["Changer::make_learner"] = _changer_arm("AddLearnerNode")
 ROLES["Changer::remove"] = _changer_arm("RemoveNode")
